@@ -8,7 +8,7 @@ from lang import *  # noqa
 from props.common import sub_rng, diff_runs, replay_generic, corpus_cases
 
 replay = replay_generic
-VALS = ['0', '1', '2', '""', '"s"', NIL, TRUE, FALSE, '[]', '[1, 2]', '{}', '{k: 1}', 'p', '0.5', '2 ** 1024 - 2 ** 1024']
+VALS = ['0', '1', '2', '""', '"s"', '"0"', '"০"', '"0.0"', '"-0"', '" "', NIL, TRUE, FALSE, '[]', '[1, 2]', '{}', '{k: 1}', 'p', '0.5', '2 ** 1024 - 2 ** 1024']
 PRE = ('%s p(tag, v) { %s tag; %s v; }\n%s arr = [10, 20, 30];\n%s ob = {k: 1, j: 2};\n%s x = 0;\n%s f2(a, b) { %s a; }\n%s f3(a, b, c) { %s [a, b, c]; }\n'
        % (FUN, PRINT, RETURN, VAR, VAR, VAR, FUN, RETURN, FUN, RETURN))
 
